@@ -244,7 +244,7 @@ pub fn gen_case(idx: u64) -> Case {
             }
             5 => {
                 // character constants
-                let chs: Vec<(&str, i32)> = vec![("'a'", 97), ("'\\n'", 10), ("'\\\\'", 92), ("'\\''", 39), ("'\\0'", 0), ("' '", 32), ("'/'", 47), ("'#'", 35), ("'\\f'", 12), ("'\\t'", 9), ("'@'", 64), ("'*'", 42), ("'Z'", 90), ("QZ", 90), ("FN('Z')", 91), ("'\\a'", 7), ("'\\b'", 8), ("'\\v'", 11), ("'\\r'", 13)];
+                let chs: Vec<(&str, i32)> = vec![("'a'", 97), ("'\\n'", 10), ("'\\\\'", 92), ("'\\''", 39), ("'\\0'", 0), ("' '", 32), ("'/'", 47), ("'#'", 35), ("'\\f'", 12), ("'\\t'", 9), ("'@'", 64), ("'*'", 42), ("'Z'", 90), ("QZ", 90), ("FN('Z')", 91), ("'\\a'", 7), ("'\\b'", 8), ("'\\v'", 11), ("'\\r'", 13), ("'\"'", 34), ("'\\\"'", 34), ("'\"'", 34)];
                 let (sp, v) = *rng.pick(&chs);
                 let name = format!("ck{}", item);
                 lines.push(format!("const char {} = {};", name, sp));
@@ -337,9 +337,8 @@ fn judge(kind: &str, idx: u64, c: &Case, sig: Option<String>) -> CaseResult {
             viol(&mut res, format!("{}: stored {:?}, reference decoding {:?}", name, got, exp));
             return res;
         }
-        // the declared size of a named array is its byte count (table/argument literals carry the
-        // size of their context: not part of the property)
-        if name.starts_with('s') && v.size != bytes.len() {
+        // the recorded size of a named array and of every literal (cctmpN) is its byte count
+        if v.size != bytes.len() {
             viol(&mut res, format!("{}: size {} but {} bytes", name, v.size, bytes.len()));
             return res;
         }
@@ -396,6 +395,8 @@ pub fn c09_pins() -> Vec<(&'static str, Case)> {
     vec![
         ("sibling_call_literals", mk("char *p;\nunsigned char r;\nchar g(char *s) { p = s; return 1; }\nchar h(char *a, char *b) { p = a; p = b; return 1; }\nvoid main() { r = g(\"aa\") + g(\"bb\"); h(\"cc\", (\"dd\")); }\n", vec![("cctmp0", vec![97, 97, 0]), ("cctmp1", vec![98, 98, 0]), ("cctmp2", vec![99, 99, 0]), ("cctmp3", vec![100, 100, 0])], vec![])),
         ("escaped_backslash_then_escaped_quote", mk("#if 0\nconst char d[] = \"\\\\\\\"/*\";\n#endif\nconst char s0[] = \"a\\\\\\\"b\";\nconst char s1[] = \"z\";\nvoid main() {}\n", vec![("s0", vec![97, 92, 34, 98, 0]), ("s1", vec![122, 0])], vec![])),
+        ("quote_character_constant", mk("const char k0 = '\"';\nconst char s0[] = \"a\\\"b\";\nconst char k1 = '\\\"';\nconst char s1[] = \"z\"; const char k2 = '\"'; const char s2[] = \"y\";\nvoid main() {}\n", vec![("s0", vec![97, 34, 98, 0]), ("s1", vec![122, 0]), ("s2", vec![121, 0])], vec![("k0", 34), ("k1", 34), ("k2", 34)])),
+        ("literal_sizes_in_pointer_table", mk("const char *tab[3] = {\"one\", \"fours\", \"\"};\nvoid main() {}\n", vec![("cctmp0", vec![111, 110, 101, 0]), ("cctmp1", vec![102, 111, 117, 114, 115, 0]), ("cctmp2", vec![0])], vec![])),
         ("macro_name_in_character_constant", mk("#define a 5\n#define Q 'a'\nconst char k0 = 'a';\nconst char k1 = Q;\nvoid main() {}\n", vec![], vec![("k0", 97), ("k1", 97)])),
         ("macro_parameter_in_character_constant", mk("#define PICK(x) ((x) ? 'x' : 'y')\nconst char k0 = PICK(1);\nconst char k1 = PICK(0);\nvoid main() {}\n", vec![], vec![("k0", 120), ("k1", 121)])),
         ("formfeed_escape", mk("const char s0[] = \"a\\fb\";\nconst char ck = '\\f';\nvoid main() {}\n", vec![("s0", vec![97, 12, 98, 0])], vec![("ck", 12)])),
